@@ -183,7 +183,11 @@ impl Property for C17 {
             return crate::sweep::run(sw, cx, crate::sweep::Rule::Operators);
         }
         let env = new_env();
-        let pool: Vec<Address> = (0..NA).map(|_| Address::generate(&env)).collect();
+        let mut pool: Vec<Address> = (0..NA).map(|_| Address::generate(&env)).collect();
+        // the last candidate is the account-kind address carrying the same 32 bytes as the first (contract-kind) one:
+        // appointing, removing or calling as one of them says nothing about the other
+        let twin = kind_twin(&env, &pool[0]);
+        *pool.last_mut().unwrap() = twin;
         let owner0 = Address::generate(&env);
         let stranger = Address::generate(&env);
         let ops_id = env.register(AxelarOperators, (&owner0,));
@@ -241,7 +245,17 @@ impl Property for C17 {
                     match &signer {
                         Some(s) => {
                             let inv = MockAuthInvoke { contract: &ops_id, fn_name, args: (pool[wi].clone(),).into_val(&env), sub_invokes: &[] };
-                            env.mock_auths(&[MockAuth { address: s, invoke: &inv }]);
+                            if is_account_kind(s) {
+                                // an account-kind signer cannot be given a mock account contract; wholesale mocking is only
+                                // faithful when that signer is the address whose authorisation the call needs
+                                if *s != owner {
+                                    cx.count("skipped_account_kind_signer_other_than_the_principal");
+                                    continue;
+                                }
+                                env.mock_all_auths();
+                            } else {
+                                env.mock_auths(&[MockAuth { address: s, invoke: &inv }]);
+                            }
                         }
                         None => env.mock_auths(&[]),
                     }
@@ -304,7 +318,15 @@ impl Property for C17 {
                                 args: (pool[ci].clone(), callee.clone(), func.clone(), sargs.clone()).into_val(&env),
                                 sub_invokes: &[],
                             };
-                            env.mock_auths(&[MockAuth { address: s, invoke: &inv }]);
+                            if is_account_kind(s) {
+                                if *s != pool[ci] {
+                                    cx.count("skipped_account_kind_signer_other_than_the_principal");
+                                    continue;
+                                }
+                                env.mock_all_auths();
+                            } else {
+                                env.mock_auths(&[MockAuth { address: s, invoke: &inv }]);
+                            }
                         }
                         None => env.mock_auths(&[]),
                     }
